@@ -245,6 +245,11 @@ func (p *PacketOut) MarshalBinary() (data []byte, err error) {
 	copy(data[n:], b)
 	n += len(b)
 
+	// the actions may have grown since they were added
+	p.ActionsLen = 0
+	for _, a := range p.Actions {
+		p.ActionsLen += a.Len()
+	}
 	binary.BigEndian.PutUint32(data[n:], p.BufferId)
 	n += 4
 	binary.BigEndian.PutUint32(data[n:], p.InPort)
